@@ -29,6 +29,7 @@ type C14Case struct {
 	Procs     int        `json:"procs"`
 	Keywords  [][]string `json:"keywords,omitempty"` // per goroutine: registered in every context of that goroutine
 	Toks      *C10Case   `json:"toks,omitempty"`     // grammar "toks": a trimmed token sequence (all four modes, left and right) shared by the goroutines
+	Pre       []int      `json:"pre,omitempty"`      // per goroutine (index modulo length): its files stand behind a file of that many bytes in their sets
 	Pattern   int        `json:"pattern"`            // makes the regular expressions of the "lits" grammar and of concurrently constructed terminals fresh in this process
 }
 
@@ -41,7 +42,7 @@ func (c *C14Case) Describe() string {
 }
 
 func genC14(t *rapid.T) interface{} {
-	c := &C14Case{Grammar: rapid.SampledFrom([]string{"arith", "arith", "json", "json", "lr", "lits", "generated", "idents", "idents", "toks", "toks"}).Draw(t, "grammar")}
+	c := &C14Case{Grammar: rapid.SampledFrom([]string{"arith", "arith", "json", "json", "lr", "lits", "generated", "idents", "idents", "toks", "toks", "nomatch"}).Draw(t, "grammar")}
 	c.Procs = rapid.SampledFrom([]int{2, 4, 16}).Draw(t, "procs")
 	c.Construct = rapid.Bool().Draw(t, "construct")
 	c.Pattern = rapid.IntRange(0, 1<<30).Draw(t, "pattern")
@@ -74,6 +75,8 @@ func genC14(t *rapid.T) interface{} {
 			}
 		case "json":
 			in = genJSON(t, rapid.IntRange(0, 3).Draw(t, "d"))
+		case "nomatch":
+			return rapid.SampledFrom([]string{"x", "x,x", "", ",x", "y"}).Draw(t, "nomatchIn")
 		case "lr":
 			in = rapid.SampledFrom([]string{"a", "ab", "abbbb", "abbbbbbbbb", "b", "abc", "", "abbx"}).Draw(t, "lr")
 			if rapid.IntRange(0, 3).Draw(t, "longlr") == 0 {
@@ -134,6 +137,9 @@ func genC14(t *rapid.T) interface{} {
 		// every goroutine reserves its own words in its own contexts
 		c.Keywords = append(c.Keywords, rapid.SliceOfNDistinct(rapid.SampledFrom(identPool), 0, 3, rapid.ID[string]).Draw(t, "keywords"))
 	}
+	if c.Grammar == "nomatch" || rapid.IntRange(0, 2).Draw(t, "placed") == 0 {
+		c.Pre = rapid.SliceOfN(rapid.SampledFrom([]int{0, 1, 2, 3, 7, 40, 300}), 2, 4).Draw(t, "pre")
+	}
 	return c
 }
 
@@ -143,6 +149,12 @@ func c14Parser(c *C14Case) parsley.Parser {
 		return arithParser()
 	case "json":
 		return combinator.Sentence(text.Trim(json.NewParser()))
+	case "nomatch":
+		// a rule that is left-recursive only: it returns neither a result nor an error, and Parse
+		// then reports that nothing matched, at the start of the run's own file
+		var p parser.Func
+		p = combinator.Memoize(combinator.SeqOf(&p, terminal.Rune(','), terminal.Rune('x')))
+		return &p
 	case "lr":
 		var p parser.Func
 		// (the result handler object of ReturnSingle() belongs to the grammar: every run goes through it)
@@ -218,9 +230,10 @@ var baselineNo int64
 // runAlone is the baseline of one run: the same parse under a file name no other run of this
 // process has used, so that nothing remembered under a file's name (or name and size) reaches it;
 // the name is put back to "f" in the rendered result.
-func runAlone(p parsley.Parser, in string, keywords ...string) string {
+func runAlone(p parsley.Parser, in string, pre int, keywords ...string) string {
 	name := fmt.Sprintf("alone%d", atomic.AddInt64(&baselineNo, 1))
-	return strings.ReplaceAll(runOneNamed(p, name, in, keywords...), " at "+name+":", " at f:")
+	s, _ := runOneTreeAt(p, name, in, pre, keywords...)
+	return strings.ReplaceAll(s, " at "+name+":", " at f:")
 }
 
 func runOne(p parsley.Parser, in string, keywords ...string) string {
@@ -235,14 +248,29 @@ func runOneNamed(p parsley.Parser, name, in string, keywords ...string) string {
 // runOneTree also hands back the tree of the run (parsed with a second context), so that it can be
 // read again after other runs have finished.
 func runOneTree(p parsley.Parser, name, in string, keywords ...string) (string, parsley.Node) {
+	return runOneTreeAt(p, name, in, 0, keywords...)
+}
+
+// runOneTreeAt: with pre > 0 the run's file stands between two other files in its set.
+func runOneTreeAt(p parsley.Parser, name, in string, pre int, keywords ...string) (string, parsley.Node) {
 	f := newFileOwned(name, []byte(in))
-	ctx := parsley.NewContext(parsley.NewFileSet(f), text.NewReader(f))
+	fset := func() *parsley.FileSet {
+		if pre > 0 {
+			return parsley.NewFileSet(text.NewFile("pre", []byte(strings.Repeat("p\n", pre)[:pre])), f, text.NewFile("post", []byte("q\nq")))
+		}
+		return parsley.NewFileSet(f)
+	}
+	ctx := parsley.NewContext(fset(), text.NewReader(f))
 	ctx.RegisterKeywords(keywords...)
 	v, err := parsley.Evaluate(ctx, p)
 	res := fmt.Sprintf("%v / %v / calls=%d", v, err, ctx.CallCount())
+	if err != nil && !strings.Contains(err.Error(), " at "+name+":") {
+		// whatever fails in a run fails somewhere in the run's own file
+		res += " / THE ERROR IS NOT LOCATED IN THE RUN'S OWN FILE"
+	}
 	// the value belongs to this run: what its owner does with it afterwards is nobody else's business
 	scribbleValue(v)
-	ctx2 := parsley.NewContext(parsley.NewFileSet(f), text.NewReader(f))
+	ctx2 := parsley.NewContext(fset(), text.NewReader(f))
 	ctx2.RegisterKeywords(keywords...)
 	tree, _ := parsley.Parse(ctx2, p)
 	return res, tree
@@ -312,6 +340,12 @@ func checkC14(ci interface{}, st *Stats) error {
 	start := make(chan struct{})
 	errs := make([]error, len(c.Jobs))
 	results := make([][]obs, len(c.Jobs))
+	preOf := func(g int) int {
+		if len(c.Pre) == 0 {
+			return 0
+		}
+		return c.Pre[g%len(c.Pre)]
+	}
 	kw := func(g int) []string {
 		if g < len(c.Keywords) {
 			return c.Keywords[g]
@@ -330,7 +364,7 @@ func checkC14(ci interface{}, st *Stats) error {
 			<-start
 			for round := 0; round < 3; round++ {
 				for ji, in := range jobs {
-					got, tree := runOneTree(p, "f", in, kw(g)...)
+					got, tree := runOneTreeAt(p, "f", in, preOf(g), kw(g)...)
 					results[g] = append(results[g], obs{g, in, got, false, tree, renderFull(tree, 1)})
 					if c.Construct {
 						switch (g + round) % 4 {
@@ -344,7 +378,7 @@ func checkC14(ci interface{}, st *Stats) error {
 							runOne(combinator.Sentence(combinator.Many(text.Trim(re)).Bind(concatInterpAny())), "ab cd")
 						default:
 							q := c14Parser(c)
-							got, tree := runOneTree(q, "f", in, kw(g)...)
+							got, tree := runOneTreeAt(q, "f", in, preOf(g), kw(g)...)
 							results[g] = append(results[g], obs{g, in, got, true, tree, renderFull(tree, 1)})
 						}
 					}
@@ -373,7 +407,7 @@ func checkC14(ci interface{}, st *Stats) error {
 		f := false
 		for _, in := range jobs {
 			if _, ok := want[in]; !ok {
-				want[in] = runAlone(p, in, kw(g)...)
+				want[in] = runAlone(p, in, preOf(g), kw(g)...)
 			}
 			if !containsNilErr(want[in]) {
 				f = true
@@ -383,6 +417,9 @@ func checkC14(ci interface{}, st *Stats) error {
 			failingG++
 		}
 		for _, o := range results[g] {
+			if strings.Contains(o.got, "NOT LOCATED IN THE RUN'S OWN FILE") {
+				return fmt.Errorf("goroutine %d, input %q (file f behind %d bytes of another file): %s", g, o.in, preOf(g), o.got)
+			}
 			if o.got != want[o.in] {
 				what := "the shared parser"
 				if o.fresh {
@@ -391,6 +428,9 @@ func checkC14(ci interface{}, st *Stats) error {
 				return fmt.Errorf("goroutine %d, input %q: %s gave %s in the concurrent run, alone it gives %s", g, o.in, what, o.got, want[o.in])
 			}
 		}
+	}
+	if len(c.Pre) > 0 {
+		st.Class("files placed behind other files, at different offsets per goroutine")
 	}
 	st.Class("grammar " + c.Grammar)
 	st.ClassN("goroutines", len(c.Jobs))
